@@ -663,7 +663,7 @@ class InterpProxy(object):
             return getattr(real_interp, kind)(x, y)
         if len(x) < 2:
             getattr(real_interp, kind)(np.arange(len(x), dtype=float), np.zeros(len(x)))
-        _used('pchip / PchipInterpolator (uninterpreted interpolant: congruence + interpolation at knots)')
+        _used('pchip / PchipInterpolator (uninterpreted interpolant: congruence + interpolation at knots + no-overshoot bounds)')
         xs, ys = list(np.asarray(x, dtype=object)), list(np.asarray(y, dtype=object))
         xc = _const_list(xs)
 
@@ -675,7 +675,18 @@ class InterpProxy(object):
                 ltv = lift(tv)
                 if xc is not None and ltv.c is not None and ltv.c in xc:
                     hit = ys[xc.index(ltv.c)]
-                out.flat[i] = hit if hit is not None else _uf_eval('pchip', xs, ys, tv)
+                if hit is None:
+                    hit = _uf_eval('pchip', xs, ys, tv)
+                    if xc is not None and ltv.c is not None and xc[0] <= ltv.c <= xc[-1]:
+                        # shape preservation (no overshoot): on [x_k, x_k+1] the interpolant stays between y_k and y_k+1
+                        k = 0
+                        while k < len(xc) - 2 and ltv.c > xc[k + 1]:
+                            k += 1
+                        a, b = lift(ys[k]).rt, lift(ys[k + 1]).rt
+                        lo = z3.If(a <= b, a, b)
+                        hi = z3.If(a <= b, b, a)
+                        core.ctx().add(z3.And(hit.t >= lo, hit.t <= hi))
+                out.flat[i] = hit
             return out.view(SymArray)
         return ev
 
